@@ -16,7 +16,8 @@ FOCUS = {
     'C02': dict(roots=[(0, 1), (1, 1), (0, 1), (1, 1), (0, 0), (1, 0)], armed=['c02'], faults=['F-ORD', 'F-BULK'],
                 hist=['c02-final'], derive=['slice', 'convert'], p_derive=[0.0, 0.1], p_node=[0.1, 0.2],
                 steps_cap=16),
-    'C03': dict(roots=[(0, 1), (1, 1)], armed=['c03'], faults=['F-ORD'], hist=[], p_derive=[0.0, 0.1, 0.2], all_reps=True,
+    'C03': dict(roots=[(0, 1), (1, 1), (0, 1), (1, 1), (0, 0), (1, 0)], armed=['c03'], faults=['F-ORD'], hist=[],
+                p_derive=[0.0, 0.1, 0.2], all_reps=True,
                 derive=['slice', 'convert', 'restart:snapshots', 'restart:interactions', 'restart:json']),
     'C04': dict(roots=[(0, 1), (1, 1)], armed=['c04'], faults=['F-ORD', 'F-BULK'], hist=['sched'],
                 all_reps=True, derive=['slice', 'convert', 'nx:clear'], p_derive=[0.0, 0.05, 0.1]),
@@ -142,7 +143,7 @@ def execute(world, op):
     return execute_owned(world, rep, op, kind)
 
 
-OWNER = {'slice': ('C06',), 'slice2': ('C06',), 'convert': ('C16',), 'mutate_attr': ('C16', 'C06', 'C11'),
+OWNER = {'slice': ('C06',), 'slice2': ('C06',), 'slice_acc': ('C03',), 'convert': ('C16',), 'mutate_attr': ('C16', 'C06', 'C11'),
          'restart:snapshots': ('C09',), 'restart:interactions': ('C10',), 'restart:json': ('C11',),
          'parse:snapshots': ('C09', 'C18'), 'parse:interactions': ('C10', 'C18'), 'compact': ('C18',),
          'probe_paths': ('C12', 'C13'), 'probe_all': ('C12', 'C13'), 'probe_dag': ('C15',), 'probe_stats': ('C17',),
@@ -156,6 +157,7 @@ def execute_owned(world, rep, op, kind):
         pre_obs = obs.full(rep.g, lo, hi)
         pre_copy = copy.deepcopy(rep.g)
     owner = OWNER.get(kind) or OWNER.get(kind + ':' + str(op.get('via') or op.get('fmt')))
+    world.last_derived = None
     try:
         if kind == 'add':
             out = ops.do_add(world, rep, op)
@@ -167,6 +169,8 @@ def execute_owned(world, rep, op, kind):
             out = ops.do_slice(world, rep, op)
         elif kind == 'slice2':
             out = ops.do_slice2(world, rep, op)
+        elif kind == 'slice_acc':
+            out = ops.do_slice_acc(world, rep, op)
         elif kind == 'convert':
             out = ops.do_convert(world, rep, op)
         elif kind == 'mutate_attr':
@@ -194,6 +198,12 @@ def execute_owned(world, rep, op, kind):
         else:
             raise ValueError(kind)
     except Violation as v:
+        if owner and world.focus == 'C03' and getattr(world, 'last_derived', None) is not None and not world.quiet:
+            # the constructor's own oracle (another property's) failed; C03 still judges what it
+            # owns about the produced graph: canonical timelines whose union is the graph's presence
+            h, world.last_derived = world.last_derived, None
+            lo, hi = op_window(world, rep, op)
+            world.evals += oracles.c03_intrinsic(h, lo, hi)
         if owner and world.focus not in owner and not world.quiet:
             # the operation's own oracles belong to another property: the run is discarded (that
             # property's check reports the defect), never filed under this focus
@@ -366,6 +376,10 @@ def gen_step(world, rng, cfg):
         a = (ids[-1] + 2) if ids else cfg['origin']
         return {'op': 'add', 'g': rep_i, 'u': u, 'v': v, 't': a, 'e': a + rng.randint(515, 700), 'sp': 'pos'}
     derive = spec.get('derive')
+    if derive and world.focus == 'C03' and not rep.m.removal and rep.m.keys() and rng.random() < max(cfg.get('p_derive', 0), 0.1):
+        ids = rep.m.instants()
+        a = rng.randint(ids[0] - 1, ids[-1])
+        return {'op': 'slice_acc', 'g': rep_i, 't_from': a, 't_to': a + rng.randint(0, 6), 'form': rng.choice(['method', 'func'])}
     if derive and rng.random() < cfg.get('p_derive', 0) and (rep.m.removal or world.focus in ('C19', 'C08')) and (rep.m.keys() or rng.random() < 0.1):
         d = rng.choice(derive)
         if d == 'alias':
